@@ -92,7 +92,7 @@ theorem IdInv.congr {s s1 : Sess} (h : IdInv s) (h1 : s1.nextId = s.nextId) (h2 
 syntax "id_frame" : tactic
 macro_rules
   | `(tactic| id_frame) => `(tactic|
-      (simp (config := { failIfUnchanged := false }) [sendReq, Sess.setTbl, Sess.newFut, Sess.drawId, Sess.unwatch, emitCb, settle, reqIds, reqIdOf, isReqType,
+      (simp (config := { failIfUnchanged := false }) [request, futureSuccess, cancelDo, cancelMsgs, sendReq, Sess.setTbl, Sess.newFut, Sess.drawId, Sess.unwatch, emitCb, settle, reqIds, reqIdOf, isReqType,
           apiJoin, apiLeave, Sess.clearTables]
        <;> grind [reqIdOf, isReqType]))
 
@@ -162,6 +162,14 @@ theorem apiStep_idrel {s : Sess} (a : Api) (h : IdInv s) : IdRel s (apiStep s a)
     simp only [apiStep]
     refine IdRel.of_same h ?_ ?_ ?_ ?_ <;> id_frame
 
+
+theorem apiStep_idrel_publish_noack {s : Sess} (h : IdInv s) (u : Uri) (a : Args) (k : Kwargs) (o : Option PubOpts) (r : SendRes) :
+    IdRel s (sendReq s.drawId.1 .publish s.drawId.2
+      { typ := .publish, req := s.drawId.2, opts := optAttrs PubOpts.attrs o, uri := u, args := a, kwargs := k } none false r).2
+     (sendReq s.drawId.1 .publish s.drawId.2
+      { typ := .publish, req := s.drawId.2, opts := optAttrs PubOpts.attrs o, uri := u, args := a, kwargs := k } none false r).1 := by
+  have hq := h.2
+  cases r <;> refine IdRel.of_draw h ?_ ?_ ?_ ?_ <;> id_frame
 
 theorem reqIdOf_toCaught (o : SOut) : reqIdOf (toCaught o) = reqIdOf o := by
   cases o <;> rfl
